@@ -33,6 +33,30 @@ def subsets(r, n):
     return pcs
 
 
+def chains(r, n):
+    """`ifdef/`ifndef chains with 1..4 `elsif, with and without `else, under every subset of the names defined:
+    exactly one branch (the first whose condition holds) survives"""
+    import itertools
+    names = ["A", "B", "CC", "D_1", "EE"]
+    pcs = []
+    shapes = [(ne, els, neg) for ne in (1, 2, 3, 4) for els in (False, True) for neg in (False, True)]
+    fixed = [(2, True, False), (3, True, False), (2, False, True), (4, True, True)]
+    for ne, els, neg in (shapes if n is None else fixed + r.sample(shapes, 2)):
+        used = names[:ne + 1]
+        items = [ppgen.Tok("pre"), ppgen.Ws("\n")]
+        c = ppgen.Cond(neg, used[0], [ppgen.Tok("in_" + used[0]), ppgen.Ws("\n")],
+                       [(u, [ppgen.Tok("in_" + u), ppgen.Ws("\n")], r.choice([" ", "\n"])) for u in used[1:]],
+                       [ppgen.Tok("in_else"), ppgen.Ws("\n")] if els else None)
+        c.ws0, c.els_ws = r.choice([" ", "\n"]), r.choice([" ", "\n"])
+        items += [c, ppgen.Ws("\n"), ppgen.Tok("post"), ppgen.Ws("\n")]
+        files = [ppgen.File("top.sv", items)]
+        texts = ppgen.render(files)
+        for m in range(2 ** len(used)):
+            pre = [(nm, None) for k, nm in enumerate(used) if m >> k & 1]
+            pcs.append(ppx.PC(texts, predefs=pre, meta=files, tag="chain"))
+    return pcs
+
+
 def check(ctx):
     prove(ctx, "C04")
     build_impl(ctx)
@@ -40,6 +64,7 @@ def check(ctx):
     r = ctx.rng
     q = ctx.quick()
     pcs = cond_heavy(r, 150 if q else 2500) + subsets(r, 12 if q else 150) + ppx.gen_general(r, 60 if q else 800)
+    pcs += chains(r, 6 if q else None)
     cases, res, diffs = ppx.correspond(ctx, "preprocess (conditionals) vs PP/Eval.v", pcs, "c04")
     sk = ctx.cov.get("skip_hypothesis", {})
     ctx.obl("hypothesis-check:every listed node met with skip off is erasable (C04_skipped_subtree_no_effect applies)",
